@@ -24,7 +24,10 @@ ID = "C14"
 LEVEL = "fault_enumeration"
 BATCH = 2
 CASE_TIMEOUT = 900
-TOL = 1e-11
+# two executions of the same truncated tensor-network computation agree only
+# up to the requested truncation tolerance (probed in C20: 4e-9 at epsrel 1e-8
+# between two identical runs in one process): 100*epsrel*2
+TOL = 2e-6
 RULE = ("histories: all target sequences of length <=3 (thorough <=4) over "
         "a grid of N=4 steps for 4 method configurations, split in chunks; "
         "faults: every call index of every user callable of a clean run "
@@ -34,8 +37,11 @@ RULE = ("histories: all target sequences of length <=3 (thorough <=4) over "
         "has >=2 calls or the fault was really raised; distinct = distinct "
         "(configuration, target sequence) / (configuration, callable, call "
         "index)")
-ASSUMPTIONS = ["split and single runs execute the same floating-point "
-               "operations, so equality is demanded to 1e-11",
+ASSUMPTIONS = ["split and single runs must agree to 2e-6 (= 200 x the "
+               "requested epsrel 1e-8; two identical TEMPO runs are not "
+               "bitwise reproducible); realistic defects (skipped or doubled "
+               "steps, stale state) move states by >=1e-3 or change the "
+               "number of time points",
                "a retry that raises again is accepted (the property allows "
                "it)"]
 
